@@ -11,3 +11,4 @@ template class hep::callback<hep::plain_chkpt_with_rng<std::mt19937, double>>;
 template struct hep::weighted_with_variance<std::vector<hep::mc_result<double>>::const_iterator>;
 template struct hep::weighted_equally<std::vector<hep::mc_result<double>>::const_iterator>;
 template double hep::chi_square_dof<hep::weighted_with_variance, std::vector<hep::mc_result<double>>::const_iterator>(std::vector<hep::mc_result<double>>::const_iterator, std::vector<hep::mc_result<double>>::const_iterator);
+template void hep::multi_channel_summary<double>(hep::multi_channel_chkpt<double> const&, std::ostream&);
